@@ -33,6 +33,7 @@ theorem specFirst_firstRes (ns : Needles) (m : Mem) (s e : Nat) :
     obtain ⟨hl, hp, hn⟩ := Spec.firstIdx_eq_some_iff.mp h
     simp only [Mem.window_length] at hl
     rw [Mem.window_getElem] at hp
+    show FirstRes m ns.confirm s e (some (s + i))
     refine ⟨by omega, by omega, hp, ?_⟩
     intro a ha hb
     have := hn (a - s) (by omega)
@@ -51,6 +52,7 @@ theorem specLast_lastRes (ns : Needles) (m : Mem) (s e : Nat) :
     obtain ⟨hl, hp, hn⟩ := Spec.lastIdx_eq_some_iff.mp h
     simp only [Mem.window_length] at hl
     rw [Mem.window_getElem] at hp
+    show LastRes m ns.confirm s e (some (s + i))
     refine ⟨by omega, by omega, hp, ?_⟩
     intro a ha hb
     have := hn (a - s) (by simp only [Mem.window_length]; omega) (by omega)
@@ -137,6 +139,11 @@ def OutOk : Out → Out → Prop
   | .hint lo hi, .hint n _ => lo = 0 ∧ ∃ h, hi = some h ∧ n ≤ h
   | _, _ => False
 
+/-- pointwise `OutOk` on two output lists of the same length -/
+inductive OutsOk : List Out → List Out → Prop
+  | nil : OutsOk [] []
+  | cons {a b : Out} {as bs : List Out} : OutOk a b → OutsOk as bs → OutsOk (a :: as) (b :: bs)
+
 /-- once empty, the abstract iterator returns `none` forever (and stays empty) -/
 theorem absRun_nil (ops : List Op) :
     (absRun ops []).2 = [] ∧
@@ -144,7 +151,32 @@ theorem absRun_nil (ops : List Op) :
   induction ops with
   | nil => simp [absRun]
   | cons op ops ih =>
-    cases op <;> simp [absRun, absStep, ih]
+    cases op <;> simp [absRun, absStep, ih.1] <;> exact ih.2
+
+theorem outsOk_of_abs_nil {outs aouts : List Out} (hok : OutsOk outs aouts)
+    (habs : ∀ o ∈ aouts, o = .idx none ∨ o = .hint 0 (some 0) ∨ o = .cnt 0) :
+    ∀ o ∈ outs, o = .idx none ∨ o = .cnt 0 ∨ ∃ h, o = .hint 0 (some h) := by
+  induction hok with
+  | nil => simp
+  | @cons a b as bs hab _ ih =>
+    intro o ho
+    rcases List.mem_cons.mp ho with rfl | ho
+    · rcases habs b (List.mem_cons_self ..) with rfl | rfl | rfl
+      · cases o with
+        | idx x => exact Or.inl (congrArg Out.idx hab)
+        | hint _ _ => exact absurd hab (by simp [OutOk])
+        | cnt _ => exact absurd hab (by simp [OutOk])
+      · cases o with
+        | hint lo hi =>
+          obtain ⟨rfl, h, rfl, _⟩ := hab
+          exact Or.inr (Or.inr ⟨h, rfl⟩)
+        | idx _ => exact absurd hab (by simp [OutOk])
+        | cnt _ => exact absurd hab (by simp [OutOk])
+      · cases o with
+        | cnt k => exact Or.inr (Or.inl (congrArg Out.cnt hab))
+        | hint _ _ => exact absurd hab (by simp [OutOk])
+        | idx _ => exact absurd hab (by simp [OutOk])
+    · exact ih (fun o ho => habs o (List.mem_cons_of_mem _ ho)) o ho
 
 /-! ### refinement relation -/
 
@@ -265,12 +297,11 @@ theorem next_refines (hv : hay.Valid) (hf : RawOk f ns hay.mem) {it : Iter} {rem
     simp only [hm, hos]
     rw [Mem.distance_ok hay.mem _ x hay.ptr hb (by omega) (by omega),
       Mem.padd_ok hay.mem _ x 1 (by omega) (by omega)]
-    refine ⟨{ it with start := x + 1 }, c', ?_, ⟨hm, hos, ?_, ?_, hhi, ?_⟩⟩
-    · rw [hsplit]; rfl
+    rw [hsplit]
+    refine ⟨_, c', rfl, ⟨rfl, rfl, ?_, ?_, hhi, ?_⟩⟩
     · show hay.ptr ≤ x + 1; omega
     · show x + 1 ≤ it.end_; omega
-    · rw [hsplit]
-      show _ = matchesIn _ (x + 1 - hay.ptr) _
+    · show _ = matchesIn _ (x + 1 - hay.ptr) _
       have : x + 1 - hay.ptr = x - hay.ptr + 1 := by omega
       rw [this]; rfl
 
@@ -309,14 +340,13 @@ theorem nextBack_refines (hv : hay.Valid) (hf : RawOk f ns hay.mem) {it : Iter} 
         exact a4 (hay.ptr + j) (by omega) (by omega)
     simp only [hm, hos]
     rw [Mem.distance_ok hay.mem _ x hay.ptr hb (by omega) (by omega)]
-    refine ⟨{ it with end_ := x }, c', ?_, ⟨hm, hos, hlo, ?_, ?_, ?_⟩⟩
-    · rw [hsplit]; simp; rfl
+    rw [hsplit, List.getLast?_concat, List.dropLast_concat]
+    refine ⟨_, c', rfl, ⟨rfl, rfl, hlo, ?_, ?_, rfl⟩⟩
     · show it.start ≤ x; omega
     · show x ≤ hay.ptr + hay.len; omega
-    · rw [hsplit]; simp
 
-theorem confirm_one (n1 b : UInt8) : Needles.confirm ⟨n1, []⟩ b = (b == n1) := by
-  simp [Needles.confirm, Needles.toList]
+theorem confirm_one (n1 b : UInt8) : Needles.confirm ⟨n1, []⟩ b = (b == n1) :=
+  congrFun (Swar.One.confirm_eq n1) b
 
 /-- `countP` over an address window = number of match positions -/
 theorem countP_window_eq (hay : Slice) (ns : Needles) (s e : Nat) (hs : hay.ptr ≤ s) :
@@ -392,12 +422,14 @@ theorem step_refines (hv : hay.Valid) (hf : RawOk f ns hay.mem) (op : Op) {it : 
   cases op with
   | next =>
     obtain ⟨it', c', hrun, R'⟩ := next_refines hv hf R c
-    exact ⟨_, it', c', by simp [Iter.step, bind, M.bind, hrun]; rfl, rfl, R'⟩
+    refine ⟨.idx rem.head?, it', c', ?_, (rfl : rem.head? = rem.head?), R'⟩
+    simp only [Iter.step, bind, M.bind, hrun]; rfl
   | nextBack =>
     obtain ⟨it', c', hrun, R'⟩ := nextBack_refines hv hf R c
-    exact ⟨_, it', c', by simp [Iter.step, bind, M.bind, hrun]; rfl, rfl, R'⟩
+    refine ⟨.idx rem.getLast?, it', c', ?_, (rfl : rem.getLast? = rem.getLast?), R'⟩
+    simp only [Iter.step, bind, M.bind, hrun]; rfl
   | sizeHint =>
-    refine ⟨_, it, c, rfl, ⟨rfl, it.end_ - it.start, rfl, ?_⟩, R⟩
+    refine ⟨.hint 0 (some (it.end_ - it.start)), it, c, rfl, ⟨rfl, it.end_ - it.start, rfl, ?_⟩, R⟩
     have := matchesIn_length_le (posPred hay ns) (it.start - hay.ptr) (it.end_ - hay.ptr)
     rw [← R.rem] at this
     have := R.lo
@@ -405,7 +437,8 @@ theorem step_refines (hv : hay.Valid) (hf : RawOk f ns hay.mem) (op : Op) {it : 
     omega
   | count =>
     obtain ⟨c', hrun⟩ := countWith_refines hv hf R c
-    exact ⟨_, it, c', by simp [Iter.step, bind, M.bind, hrun]; rfl, rfl, R⟩
+    refine ⟨.cnt rem.length, it, c', ?_, (rfl : rem.length = rem.length), R⟩
+    simp only [Iter.step, bind, M.bind, hrun]; rfl
 
 /-- C06.refines (general form): from any related pair of states, every finite sequence of
 operations runs without fault, each output is acceptable for the abstract iterator's output,
@@ -413,13 +446,13 @@ and the final states are related again. -/
 theorem run_refines (hv : hay.Valid) (hf : RawOk f ns hay.mem) (ops : List Op) {it : Iter}
     {rem : List Nat} (R : Refines hay ns it rem) (c : Ctr) :
     ∃ outs it' c', Iter.run f ops it c = .ok (outs, it') c' ∧
-      List.Forall₂ OutOk outs (absRun ops rem).1 ∧ Refines hay ns it' (absRun ops rem).2 := by
+      OutsOk outs (absRun ops rem).1 ∧ Refines hay ns it' (absRun ops rem).2 := by
   induction ops generalizing it rem c with
-  | nil => exact ⟨[], it, c, rfl, List.Forall₂.nil, R⟩
+  | nil => exact ⟨[], it, c, rfl, OutsOk.nil, R⟩
   | cons op ops ih =>
     obtain ⟨o, it1, c1, h1, ok1, R1⟩ := step_refines hv hf op R c
     obtain ⟨os, it2, c2, h2, ok2, R2⟩ := ih R1 c1
-    refine ⟨o :: os, it2, c2, ?_, List.Forall₂.cons ok1 ok2, R2⟩
+    refine ⟨o :: os, it2, c2, ?_, OutsOk.cons ok1 ok2, R2⟩
     simp only [Iter.run, bind, M.bind, h1, h2]
     rfl
 
@@ -435,7 +468,7 @@ theorem C06_refines_backend (b : Backend) (ns : Needles) (hay : Slice) (hv : hay
     (ops : List Op) (c : Ctr) :
     ∃ outs it' c', Iter.run (RawFns.ofBackend b ns hay.mem) ops (Iter.new hay) c
         = .ok (outs, it') c' ∧
-      List.Forall₂ OutOk outs (absRun ops (allMatches hay ns)).1 ∧
+      OutsOk outs (absRun ops (allMatches hay ns)).1 ∧
       Refines hay ns it' (absRun ops (allMatches hay ns)).2 :=
   run_refines hv (rawOk_ofBackend b ns hay.mem) ops (refines_new hay ns) c
 
@@ -445,9 +478,14 @@ theorem C06_refines_cfg (cfg : Cfg) (ns : Needles) (hay : Slice) (hv : hay.Valid
     (ops : List Op) (c : Ctr) :
     ∃ outs it' c', Iter.run (RawFns.ofCfg cfg ns hay.mem) ops (Iter.new hay) c
         = .ok (outs, it') c' ∧
-      List.Forall₂ OutOk outs (absRun ops (allMatches hay ns)).1 ∧
+      OutsOk outs (absRun ops (allMatches hay ns)).1 ∧
       Refines hay ns it' (absRun ops (allMatches hay ns)).2 :=
   run_refines hv (rawOk_ofCfg cfg ns hay.mem) ops (refines_new hay ns) c
+
+/-- the only hypothesis (`hay.Valid`) is satisfiable by a non-trivial input: bytes 3..13 of a
+40-byte region at an odd address -/
+example : (⟨⟨0, 1001, Array.replicate 40 0⟩, 3, 10⟩ : Slice).Valid := by
+  simp [Slice.Valid]
 
 /-- C06 (fused): once the iterator is empty (`rem = []`, e.g. after `next` or `next_back`
 returned `none`), every later `next`/`next_back` returns `none`, `count` returns 0,
@@ -459,25 +497,7 @@ theorem C06_none_forever {f : RawFns} {ns : Needles} {hay : Slice} (hv : hay.Val
   obtain ⟨outs, it', c', hrun, hok, R'⟩ := run_refines hv hf ops R c
   obtain ⟨hnil, habs⟩ := absRun_nil ops
   rw [hnil] at R'
-  refine ⟨outs, it', c', hrun, R', ?_⟩
-  generalize (absRun ops []).1 = aouts at hok habs
-  induction hok with
-  | nil => simp
-  | cons hab _ ih =>
-    rename_i a b l1 l2
-    intro o ho
-    rcases List.mem_cons.mp ho with rfl | ho
-    · have hb := habs b (List.mem_cons_self ..)
-      rcases hb with rfl | rfl | rfl
-      · cases o <;> simp_all [OutOk]
-      · cases o with
-        | hint lo hi =>
-          obtain ⟨rfl, h, rfl, _⟩ := hab
-          exact Or.inr (Or.inr ⟨h, rfl⟩)
-        | idx _ => exact absurd hab (by simp [OutOk])
-        | cnt _ => exact absurd hab (by simp [OutOk])
-      · cases o <;> simp_all [OutOk]
-    · exact ih (fun o ho => habs o (List.mem_cons_of_mem _ ho)) o ho
+  exact ⟨outs, it', c', hrun, R', outsOk_of_abs_nil hok habs⟩
 
 /-- C07.iter_count: after ANY prefix of operations on a fresh iterator, `count` (of
 `Memchr`: `count_raw` on the CURRENT window; of `Memchr2`/`Memchr3`: the default `next` loop)
@@ -511,3 +531,11 @@ theorem allMatches_spec (hay : Slice) (ns : Needles) :
   simp [allMatches, mem_matchesIn, posPred]
 
 end Memchr.Api
+
+#print axioms Memchr.Api.run_refines
+#print axioms Memchr.Api.C06_refines_backend
+#print axioms Memchr.Api.C06_refines_cfg
+#print axioms Memchr.Api.C06_none_forever
+#print axioms Memchr.Api.C07_iter_count
+#print axioms Memchr.Api.C07_iter_count_backend
+#print axioms Memchr.Api.allMatches_spec
